@@ -328,23 +328,22 @@ Section Generic.
     destruct ok2; simpl; [|intros E; inversion E; subst; auto].
     (* rename *)
     destruct (if is_empty name then (sb, e, true)
-              else match ua_rename A (fr_path e) name with
+              else match rename_target A (fr_path e) name with
                    | None => (sb, e, false)
-                   | Some rel =>
-                       match ua_fullpath A rel with
-                       | None => (sb, e, false)
-                       | Some newhp =>
-                           let '(s', r) := call hc sb (HRename hp newhp) in
-                           match r with
-                           | RDone => (s', {| fr_path := rel; fr_info := fr_info e; fr_fd := fr_fd e |}, true)
-                           | _ => (s', e, false)
-                           end
+                   | Some (rel, newhp) =>
+                       let '(s', r) := call hc sb (HRename hp newhp) in
+                       match r with
+                       | RDone => (s', {| fr_path := rel; fr_info := fr_info e; fr_fd := fr_fd e |}, true)
+                       | _ => (s', e, false)
                        end
                    end) as [[sc e3] ok3] eqn:E3.
     assert (Hic : inv sc /\ Pinv (fr_path e3)).
     { destruct (is_empty name); [inversion E3; subst; auto|].
-      destruct (ua_rename A (fr_path e) name) as [rel|]; [|inversion E3; subst; auto].
-      destruct (ua_fullpath A rel) as [newhp|] eqn:Ef; [|inversion E3; subst; auto].
+      destruct (rename_target A (fr_path e) name) as [[rel newhp]|] eqn:Er; [|inversion E3; subst; auto].
+      unfold rename_target in Er.
+      destruct (ua_rename A (fr_path e) name) as [rel'|]; [|discriminate].
+      destruct (ua_fullpath A rel') as [hp'|] eqn:Ef; [|discriminate].
+      inversion Er; subst rel' hp'.
       destruct (full_ok _ _ Ef) as (Hrel & Hnew).
       destruct (call hc sb (HRename hp newhp)) as [s' r] eqn:Ec.
       assert (Hi' : inv s').
